@@ -37,6 +37,12 @@ ASSUMPTIONS = [
     "correspondences and re-sampled here on every script step)",
 ]
 MODELLED_NOT_VERIFIED = [
+    "C20 (round 5): REFUSED helper calls inside scripts (bad fabrication arguments, unknown order, reply() of a schema-invalid "
+    "message with a schema attached) have no model step: the clause 'a refused call leaves both connections, their journals, the "
+    "queue and the wire untouched, and later traffic stays in lock-step with a real endpoint that never saw the call' is checked "
+    "on the implementation only; equal-but-not-identical argument objects (NaN objects other than math.nan, str objects built at "
+    "run time) collapse to one model value and are enumerated by the harness with a metamorphic clause; bool arguments for "
+    "numbers are outside the typed domain",
     "C20 (round 4): CONFIGURATION of the initiator under the tester is outside the Lean model's quantifier and covered by "
     "correspondence / oracle only: the model's messages are group-less field lists (a parsed repeating group is compared "
     "through its wire-order flattening; the STRUCTURE handed to on_message is compared between tester and real endpoint by the "
@@ -234,8 +240,25 @@ def proc_kind(e):
     return "exc:" + type(e).__name__
 
 
-def nanf(x):
-    return math.nan if x is None else x
+NAN_KINDS = ["singleton", "float", "computed", "negated"]
+
+
+def nanf(x, kind="singleton"):
+    """an absent numeric argument: NaN - the math.nan singleton, or an equal-but-not-identical NaN object"""
+    if x is not None:
+        return x
+    if kind == "float":
+        return float("nan")
+    if kind == "computed":
+        return float("inf") - float("inf")
+    if kind == "negated":
+        return -math.nan
+    return math.nan
+
+
+def fresh(s, on):
+    """the same text as a str object built at run time (not the interned literal / not the order's own object)"""
+    return "".join(list(s)) if (on and isinstance(s, str)) else s
 
 
 def typed(cls, x, as_member):
@@ -272,12 +295,13 @@ def impl_fab(case):
     o = make_order(v)
     ft = make_tester(t, o, case["schema"])
     mem = case.get("members", True)
+    nk, fr = case.get("nan", "singleton"), case.get("fresh", False)
     msg = None
     try:
         msg = ft.fix_exec_report_msg(
-            o, a["clord"], typed(FExecType, a["exec"], mem), typed(FOrdStatus, a["status"], mem),
-            cum_qty=nanf(a["cum"]), leaves_qty=nanf(a["leaves"]), last_qty=nanf(a["last"]), price=nanf(a["price"]),
-            order_qty=nanf(a["oqty"]), orig_clord_id=a["orig"], avg_price=a["avg"],
+            o, fresh(a["clord"], fr), typed(FExecType, fresh(a["exec"], fr), mem), typed(FOrdStatus, fresh(a["status"], fr), mem),
+            cum_qty=nanf(a["cum"], nk), leaves_qty=nanf(a["leaves"], nk), last_qty=nanf(a["last"], nk), price=nanf(a["price"], nk),
+            order_qty=nanf(a["oqty"], nk), orig_clord_id=fresh(a["orig"], fr), avg_price=a["avg"],
         )
         res = "ok " + msg_tokens(msg)
     except Exception as e:  # noqa
@@ -369,7 +393,7 @@ def impl_request(case):
             if case["kind"] == "cxl":
                 m = ft.fix_cxl_request(o)
             else:
-                m = ft.fix_rep_request(o, nanf(case["price"]), nanf(case["qty"]))
+                m = ft.fix_rep_request(o, nanf(case["price"], case.get("nan", "singleton")), nanf(case["qty"], case.get("nan", "singleton")))
             res = "ok " + msg_tokens(m)
         except Exception as e:  # noqa
             res = "refused " + refusal_of(e)
@@ -668,7 +692,8 @@ def build_cases(ctx, n_flows, n_fab):
         if rng.random() < 0.3:
             t["octr"], t["ectr"] = rng.randrange(0, 50), rng.randrange(10000, 10500)
         cases.append({"kind": "fab", "label": label, "order": v, "tester": t, "args": gen_args(rng, v),
-                      "schema": rng.random() < 0.5, "members": rng.random() < 0.7})
+                      "schema": rng.random() < 0.5, "members": rng.random() < 0.7,
+                      "nan": rng.choice(NAN_KINDS + ["singleton"] * 2), "fresh": rng.random() < 0.5})
     return views, cases
 
 
@@ -713,6 +738,7 @@ def correspondence(ctx):
         inc("fab:" + " ".join(parts[1].split(" ")[:2]) if parts[1].startswith("refused") else "fab:ok")
         if len(parts) > 2:
             inc("proc:" + " ".join(parts[2].split(" ")[:2]))
+        inc("fab-args:nan=" + c.get("nan", "singleton") + (",fresh-str" if c.get("fresh") else ""))
         if canon_fab(il) != canon_fab(ml):
             dis.append({"input": c, "model": ml, "impl": il})
         if msg is not None:
@@ -741,7 +767,7 @@ def correspondence(ctx):
         for kind in ("cxl", "rep"):
             if rng.random() < 0.5:
                 continue
-            c = {"kind": kind, "order": v, "tester": t, "schema": rng.random() < 0.5,
+            c = {"kind": kind, "order": v, "tester": t, "schema": rng.random() < 0.5, "nan": rng.choice(NAN_KINDS),
                  "price": rng.choice([None, v["price"], q8(rng, 1, 500), 77]),
                  "qty": rng.choice([None, v["qty"], 0.0, q8(rng, 1, 300), 15])}
             rcases.append(c)
@@ -909,12 +935,23 @@ def oracle_fab(ctx, cases, failures, stats):
             failures.append({"signature": "C20-helper-foreign-exception:" + out.split(":")[0].split(" ")[-1], "what": "the helper or the "
                              "order object raised something unanticipated", "input": c, "observed": out})
             continue
+        if msg is None and (c.get("nan", "singleton") != "singleton" or c.get("fresh")):
+            out0, m0, _o0 = guarded(impl_fab, dict(c, schema=False, nan="singleton", fresh=False), 3)
+            if out0 != out:
+                failures.append({"signature": "C20-equal-arguments-differ", "what": "the same call with an equal but not identical "
+                                 "argument object gives another result", "input": c, "expected": out0, "observed": out})
         if msg is None:
             if out.split(" # ")[1].startswith("refused exc:"):
                 failures.append({"signature": "C20-helper-foreign-exception:" + out.split(" ")[-1], "what": "the helper raised something "
                                  "other than its assertions", "input": c, "observed": out})
             continue
         stats["accepted"] += 1
+        if c.get("nan", "singleton") != "singleton" or c.get("fresh"):
+            out0, _m0, _o0 = guarded(impl_fab, dict(c, schema=False, nan="singleton", fresh=False), 3)
+            if out0 != out:
+                failures.append({"signature": "C20-equal-arguments-differ", "what": "the same call with an equal but not identical "
+                                 "argument object (another NaN object / a str built at run time) gives another result",
+                                 "input": c, "expected": out0, "observed": out})
         for sig, what in fab_clauses(c, out, msg, o):
             failures.append({"signature": sig, "what": what, "input": c, "observed": out})
         # with the schema attached the helper must accept exactly the same dictionary-typed combinations
